@@ -5,6 +5,8 @@
 package eng
 
 import (
+	"archive/tar"
+	"bytes"
 	"context"
 	"encoding/json"
 	"fmt"
@@ -142,6 +144,10 @@ type world struct {
 	idType map[uint64]int // value id -> type it was written with
 	accepted map[[2]int]acceptedType // last fully accepted typed write per (meas, g)
 	exact  bool           // one client: the model is exact
+	viewInv, viewRet uint64 // when set: judge reads as an observer whose "read" spans this interval (backup)
+	clipMin, clipMax int64  // when viewRet is set: only cells inside [clipMin, clipMax] are expected (export)
+	shardID uint64
+	backups int
 	touch  map[[2]int][][2]uint64 // (meas, g) -> intervals of operations that may create or remove the field
 }
 
@@ -187,7 +193,11 @@ func (w *world) open(root string) error {
 	if err := w.sfile.Open(); err != nil {
 		return fmt.Errorf("series file: %w", err)
 	}
-	w.sh = tsdb.NewShard(1, filepath.Join(root, "data", "db0", "rp0", "1"), filepath.Join(root, "wal", "db0", "rp0", "1"), w.sfile, w.opt)
+	id := w.shardID
+	if id == 0 {
+		id = 1
+	}
+	w.sh = tsdb.NewShard(id, filepath.Join(root, "data", "db0", "rp0", fmt.Sprint(id)), filepath.Join(root, "wal", "db0", "rp0", fmt.Sprint(id)), w.sfile, w.opt)
 	if err := w.sh.Open(context.Background()); err != nil {
 		w.sfile.Close()
 		return fmt.Errorf("shard: %w", err)
@@ -255,11 +265,12 @@ func gen(r *hx.Run) []json.RawMessage {
 	wBulk := r.CfgInt("wbulk", 1)
 	wReopen := r.CfgInt("wreopen", 0)
 	wTyped := r.CfgInt("wtyped", 0)
+	wBackup := r.CfgInt("wbackup", 0)
 	var prog []json.RawMessage
 	for i := 0; i < nops; i++ {
 		var p op
 		p.C = o.Choose(clients, "client")
-		switch o.Pick("op", 10, wRead, wDel, wDM, wSnap, wFull, 4, wBulk, wReopen, wTyped) {
+		switch o.Pick("op", 10, wRead, wDel, wDM, wSnap, wFull, 4, wBulk, wReopen, wTyped, wBackup) {
 		case 0:
 			p.K = "w"
 			n := 1 + o.Choose(8, "npts")
@@ -320,6 +331,14 @@ func gen(r *hx.Run) []json.RawMessage {
 			p.N = []int{50, 600, 1001, 1500, 2100}[o.Choose(5, "n")]
 		case 8:
 			p.K = "reopen"
+		case 10:
+			p.K = "backup"
+			p.N = o.Choose(3, "variant") // 0 full backup+restore, 1 incremental listing, 2 export range + import
+			a, b := o.Choose(nSlots, "a"), o.Choose(nSlots, "b")
+			if a > b {
+				a, b = b, a
+			}
+			p.Min, p.Max = a, b
 		case 9:
 			p.K = "wx"
 			n := 1 + o.Choose(6, "npts")
@@ -527,6 +546,8 @@ func (w *world) doOp(p op) {
 		r.Logf("c%d drop measurement m%d [%d,%d] err=%v", p.C, m, inv, ret, err)
 	case "wx":
 		w.doTyped(p)
+	case "backup":
+		w.doBackup(p)
 	case "r":
 		min, max := rangeOf(p.Min, p.Max)
 		w.read(p.S[0], p.F[0], min, max, p.A, model.Inf, fmt.Sprintf("c%d", p.C))
@@ -555,6 +576,135 @@ func (w *world) doOp(p op) {
 	if r.Sim != nil {
 		r.Sim.Progress.Add(1)
 	}
+}
+
+// doBackup exercises Backup/Restore, incremental Backup(since) and Export/Import (C38).
+func (w *world) doBackup(p op) {
+	r := w.r
+	ctx := context.Background()
+	var buf bytes.Buffer
+	w.backups++
+	switch p.N {
+	case 1:
+		// incremental: everything changed after `since` must be in the archive
+		since := time.Now().Add(-time.Duration(1+p.Min) * time.Second)
+		inv := w.stamp()
+		// files of the shard before the backup (the backup itself snapshots the cache into a new file,
+		// which is newer than since by construction and may or may not be listed here)
+		want := map[string]bool{}
+		if e := w.engine(); e != nil {
+			for _, st := range e.FileStore.Stats() {
+				if fi, err := os.Stat(st.Path); err == nil && fi.ModTime().After(since) {
+					want[filepath.Base(st.Path)] = true
+				}
+			}
+		}
+		err := w.sh.Backup(&buf, "bk", since)
+		ret := w.stamp()
+		if err != nil {
+			if benignBackupErr(err) {
+				r.Probe("backup_refused_busy")
+				return
+			}
+			r.Violate("C38:backup-error", "backup", "incremental Backup failed: %v", err)
+			return
+		}
+		have := map[string]bool{}
+		tr := tar.NewReader(&buf)
+		for {
+			h, err := tr.Next()
+			if err != nil {
+				break
+			}
+			have[filepath.Base(h.Name)] = true
+		}
+		// a file may have been compacted away between the listing and the snapshot: only demand files
+		// that still exist afterwards
+		still := map[string]bool{}
+		if e := w.engine(); e != nil {
+			for _, st := range e.FileStore.Stats() {
+				still[filepath.Base(st.Path)] = true
+			}
+		}
+		var names []string
+		for n := range want {
+			names = append(names, n)
+		}
+		sort.Strings(names)
+		for _, n := range names {
+			if still[n] && !have[n] {
+				r.Violate("C38:incremental-missing-file", "incremental-missing-file", "Backup(since=%v) [%d,%d] does not contain %s although its modification time is later than since", since.UTC(), inv, ret, n)
+				return
+			}
+		}
+		r.Probe("probe_incremental_backup")
+		r.Logf("c%d incremental backup since -%ds: %d files in archive, %d demanded", p.C, 1+p.Min, len(have), len(want))
+		return
+	}
+	inv := w.stamp()
+	var err error
+	clipMin, clipMax := int64(math.MinInt64), int64(math.MaxInt64)
+	if p.N == 2 {
+		clipMin, clipMax = slotTS(p.Min), slotTS(p.Max)
+		err = w.sh.Export(&buf, "bk", time.Unix(0, clipMin), time.Unix(0, clipMax))
+	} else {
+		err = w.sh.Backup(&buf, "bk", time.Time{})
+	}
+	ret := w.stamp()
+	kindSig := "backup"
+	if p.N == 2 {
+		kindSig = "export"
+	}
+	if err != nil && benignBackupErr(err) {
+		r.Probe("backup_refused_busy")
+		return
+	}
+	if err != nil {
+		sig := kindSig
+		if strings.Contains(err.Error(), ".tombstone: no such file") {
+			sig += ":tombstoned-file"
+		}
+		r.Violate("C38:backup-error", sig, "Backup/Export failed: %v", err)
+		return
+	}
+	// restore into an empty shard with its own series file, next to the live one
+	root := filepath.Join(w.root, fmt.Sprintf("restore%d-c%d", w.backups, p.C))
+	w2 := &world{r: r, h: w.h, opt: w.opt, typeOf: w.typeOf, idType: w.idType, touch: w.touch, accepted: w.accepted,
+		viewInv: inv, viewRet: ret, clipMin: clipMin, clipMax: clipMax, shardID: 7}
+	if err := w2.open(root); err != nil {
+		r.Violate("C38:restore-error", "open-empty", "cannot open an empty shard to restore into: %v", err)
+		return
+	}
+	if p.N == 2 {
+		err = w2.sh.Import(bytes.NewReader(buf.Bytes()), "bk")
+	} else {
+		err = w2.sh.Restore(ctx, bytes.NewReader(buf.Bytes()), "bk")
+	}
+	if err != nil {
+		r.Violate("C38:restore-error", "restore", "Restore/Import of a fresh archive failed: %v", err)
+		w2.close()
+		return
+	}
+	what := "backup"
+	if p.N == 2 {
+		what = fmt.Sprintf("export[%d..%d]", clipMin, clipMax)
+		r.Probe("probe_export_import")
+	} else {
+		r.Probe("probe_backup_restore")
+	}
+	before := len(r.Viol)
+	w2.readAll(model.Inf, fmt.Sprintf("restored-from-%s taken at [%d,%d]", what, inv, ret))
+	for i := before; i < len(r.Viol); i++ {
+		r.Viol[i].Sig += ":" + kindSig
+	}
+	w2.close()
+	r.Logf("c%d %s [%d,%d] %d bytes restored and compared", p.C, what, inv, ret, buf.Len())
+}
+
+// benignBackupErr: a backup may be refused while another operation has snapshots disabled or one in flight.
+func benignBackupErr(err error) bool {
+	m := err.Error()
+	return strings.Contains(m, "snapshots disabled") || strings.Contains(m, "snapshot in progress") || strings.Contains(m, "compactions disabled")
 }
 
 func cloneTypes(m map[[2]int]int) map[[2]int]int {
@@ -766,6 +916,21 @@ func (w *world) read(s, f int, min, max int64, asc bool, asOf uint64, who string
 	if asOf != model.Inf {
 		v.RInv, v.RRet = model.Inf-1, model.Inf-1
 	}
+	if w.viewRet != 0 {
+		v.RInv, v.RRet = w.viewInv, w.viewRet
+		for _, p := range got {
+			if p.TS < w.clipMin || p.TS > w.clipMax {
+				r.Violate("C38:outside-export-range", "outside-export-range", "%s: restored series %d field %s holds ts=%d outside the exported range [%d,%d]", who, s, fieldName(f), p.TS, w.clipMin, w.clipMax)
+				return false
+			}
+		}
+		if min < w.clipMin {
+			min = w.clipMin
+		}
+		if max > w.clipMax {
+			max = w.clipMax
+		}
+	}
 	class, detail := v.CheckRead(s, f, min, max, asc, got)
 	if class != "" && os.Getenv("DSIM_DEBUG") != "" {
 		detail += " || " + w.dump(s, f)
@@ -775,6 +940,9 @@ func (w *world) read(s, f int, min, max int64, asc bool, asOf uint64, who string
 		switch class {
 		case "resurrected":
 			prop = "C03"
+		}
+		if w.viewRet != 0 {
+			prop = "C38"
 		}
 		if asOf != model.Inf {
 			prop = "C02"
